@@ -193,14 +193,11 @@ def _instantiate(obj: Any, x64: bool) -> Any:
 
     if not hasattr(obj, "instantiate"):
         return obj
-    prev = bool(jax.config.jax_enable_x64)
-    if prev != x64:
-        jax.config.update("jax_enable_x64", x64)
-    try:
+    # scoped override only: writing the effective value back with config.update would change the
+    # user's GLOBAL flag when the history is inside a jax.enable_x64(...) block (harness false alarm
+    # C13|x64_flag_after_ctx under VERIF_SEED=1)
+    with jax.enable_x64(bool(x64)):
         return obj.instantiate()
-    finally:
-        if prev != x64:
-            jax.config.update("jax_enable_x64", prev)
 
 
 def materialize(pid: str) -> Program:
